@@ -910,8 +910,8 @@ func MergeIQRs(iqrs []*IQR, less func(*Record, *Record) bool) (*IQR, int, error)
 		for _, cname := range originalKnownColumns {
 			value, err := record.ReadColumn(cname)
 			if err != nil {
-				value.CVal = nil
-				value.Dtype = sutils.SS_DT_BACKFILL
+				// This record's IQR does not have the column.
+				value = backfillCVal
 			}
 
 			iqr.knownValues[cname] = append(iqr.knownValues[cname], *value)
